@@ -6,6 +6,7 @@ import (
 	"os"
 	"regexp"
 	"runtime"
+	"strconv"
 	"strings"
 	"sync/atomic"
 	"testing"
@@ -39,6 +40,7 @@ var goroutineHeadRe = regexp.MustCompile(`^goroutine (\d+) \[([^\]]*)\]:`)
 var clientFrameRe = regexp.MustCompile(`^seata\.apache\.org/seata-go/pkg/([^\s(]+(?:\([^)]*\))?[^\s(]*)\(`)
 
 type stackInfo struct {
+	id     uint64
 	state  string
 	frames []string // function lines
 	text   string
@@ -58,6 +60,7 @@ func allStacks() []stackInfo {
 			continue
 		}
 		si := stackInfo{state: m[2], text: blk}
+		si.id, _ = strconv.ParseUint(m[1], 10, 64)
 		for _, l := range lines[1:] {
 			if !strings.HasPrefix(l, "\t") && !strings.HasPrefix(l, "created by") {
 				si.frames = append(si.frames, l)
@@ -94,6 +97,14 @@ func classifyStall(stacks []stackInfo) (lockedUp bool, class, detail, harnessWhy
 			for _, f := range s.frames {
 				if clientFrameRe.MatchString(f) {
 					below = true
+				}
+			}
+			if below {
+				// with the instrumented client the simulator counts the client
+				// mutexes every goroutine holds: a sleeper that holds none keeps
+				// nobody waiting
+				if n, known := heldByGoroutine(s.id); known && n == 0 {
+					below = false
 				}
 			}
 			for _, f := range s.frames {
